@@ -169,7 +169,7 @@ pub proof fn lemma_stamped_unread(ino: Inode, t: int, gran: int)
                      'old(w).solo ==> (r.is_err() ==> final(w).same_fs(*old(w)) && final(w).hard_faults > old(w).hard_faults)')
 
     # ---- touch::run ------------------------------------------------------------------------
-    u.text('pub mod touch {\nuse super::*;\n')
+    u.text('pub mod touch {\nuse super::*;\nuse crate::std;\n')
     f = u.under_contract(u.item('src/raw_cache.rs', ['fn touch', 'fn run']), ['C09', 'C05', 'C13', 'C15', 'C18', 'C06', 'C20', 'C04'])
     f.air = 'raw_cache::touch::run'
     f.insert_before_tok(f.fn_kw(), 'pub ')   # visibility only: the nested fn lives in a module of its own here
@@ -215,7 +215,7 @@ pub proof fn lemma_stamped_unread(ino: Inode, t: int, gran: int)
     f.add_arg_if_present('FileTime :: now', TW)
 
     # ---- insert_or_update::run -------------------------------------------------------------
-    u.text('pub mod insert_or_update {\nuse super::*;\n')
+    u.text('pub mod insert_or_update {\nuse super::*;\nuse crate::std;\n')
     f = u.under_contract(u.item('src/raw_cache.rs', ['fn insert_or_update', 'fn run']),
                          ['C01', 'C02', 'C03', 'C04', 'C09', 'C11', 'C16', 'C18', 'C19', 'C05', 'C06', 'C20'])
     f.air = 'raw_cache::insert_or_update::run'
@@ -251,7 +251,7 @@ pub proof fn lemma_stamped_unread(ino: Inode, t: int, gran: int)
     u.text('}\n')
 
     # ---- insert_or_touch::run --------------------------------------------------------------
-    u.text('pub mod insert_or_touch {\nuse super::*;\n')
+    u.text('pub mod insert_or_touch {\nuse super::*;\nuse crate::std;\n')
     f = u.under_contract(u.item('src/raw_cache.rs', ['fn insert_or_touch', 'fn run']),
                          ['C01', 'C02', 'C03', 'C04', 'C09', 'C11', 'C16', 'C18', 'C19', 'C05', 'C06', 'C20'])
     f.air = 'raw_cache::insert_or_touch::run'
